@@ -224,6 +224,24 @@ def obsRtFlipFrom (st : VP9Pay) (p : VP9Packet) : List (Bool × Call) → List (
 def obsRtFlip (init : UInt16) (calls : List (Bool × Call)) : List (List FragObs) :=
   obsRtFlipFrom { flexible := false, init := init } {} calls
 
+/-! ### the per-frame clauses on their own
+
+  The clauses of C12 other than "increasing by one per frame" speak about ONE frame and a sufficient
+  MTU.  They bind for every proper call of EVERY history — also one in which other calls were refused
+  (MTU too small, empty or malformed frame): what a refused call does to the running picture id is
+  not claimed, so the frame is judged with the picture id its own first packet carries. -/
+
+def frameLocal (flex : Bool) (c : Call) (o : List FragObs) : Bool :=
+  !proper flex c ||
+  match o with
+  | f :: _ => frameOk flex f.md.PictureID.toNat (frameInfo c) (c.frame.getD []) o
+  | [] => false
+
+def rtLocal : List (Bool × Call) → List (List FragObs) → Bool
+  | [], [] => true
+  | (flex, c) :: cs, o :: os => frameLocal flex c o && rtLocal cs os
+  | _, _ => false
+
 /-! ### c08.vp9 / c09.vp9 -/
 
 def obsPay (flex : Bool) (init : UInt16) (calls : List (UInt16 × Option Bytes)) : List PayObs :=
